@@ -1829,6 +1829,14 @@ func runC20OperandDim(c *Ctx) {
 					return
 				}
 			}
+			// the same leaf when the function literal became a method of a small state struct
+			// whose method value is what walk receives (and nothing else ever calls it)
+			if par, ok := stripLoad(recv).(*ssa.Parameter); ok && f.Parent() == nil && isNewHelper(f) && f.Signature.Recv() != nil && len(f.Params) == 2 && par == f.Params[1] {
+				if methodValueOnlyGivenToWalk(c, f) {
+					c.OK(call.Pos(), fn, construct, "a leaf handed out by walk to this method value (never a collection)")
+					return
+				}
+			}
 			// an element of a list of leaves: a list returned by a helper introduced after the
 			// baseline that only ever appends the geometries walk hands to its function literal
 			if ld, ok := recv.(*ssa.UnOp); ok && ld.Op == token.MUL {
@@ -1855,4 +1863,55 @@ func runC20OperandDim(c *Ctx) {
 	if n < 3 {
 		c.Errorf("only %d Geometry.Dimension() call sites found, expected >= 3", n)
 	}
+}
+
+// methodValueOnlyGivenToWalk: every use of method f is its bound method value handed to a
+// walk call (walk calls its argument on leaves only).
+func methodValueOnlyGivenToWalk(c *Ctx, f *ssa.Function) bool {
+	for _, s := range c.P.callSitesOf(f) {
+		if !isBoundWrapper(s.Parent()) {
+			return false // also called directly, on who knows what
+		}
+	}
+	wrapsF := func(w *ssa.Function) bool {
+		if w == nil || !isBoundWrapper(w) {
+			return false
+		}
+		found := false
+		eachCall(w, func(ci ssa.CallInstruction) {
+			if staticCallee(ci) == f {
+				found = true
+			}
+		})
+		return found
+	}
+	given, bad := 0, false
+	for _, g := range c.P.Funcs {
+		if pkgOf(g) != "geom" {
+			continue
+		}
+		eachInstr(g, func(in ssa.Instruction) {
+			mc, ok := in.(*ssa.MakeClosure)
+			if !ok {
+				return
+			}
+			fnv, _ := mc.Fn.(*ssa.Function)
+			if !wrapsF(fnv) {
+				return
+			}
+			// every use of the method value: an argument of walk
+			for _, r := range *mc.Referrers() {
+				if _, isDbg := r.(*ssa.DebugRef); isDbg {
+					continue
+				}
+				ci, isCall := r.(ssa.CallInstruction)
+				if !isCall || !strings.HasSuffix(calleeName(ci), ").walk") {
+					bad = true
+					continue
+				}
+				given++
+			}
+		})
+	}
+	return !bad && given > 0
 }
